@@ -97,6 +97,13 @@ func doRead(n *lib.RSNode, r read) (out readOut) {
 					continue
 				}
 				rr := m.RangeResponse
+				if len(xs) > 40 || k > 4000 { // runaway stream: drain, record one malformed sentinel
+					if k < 1000000 {
+						k = 1000000
+						xs = append(xs, "(mk_smsg 0 [] true true)")
+					}
+					continue
+				}
 				k += len(rr.Kvs)
 				xs = append(xs, lib.App("mk_smsg", lib.N(rr.Header.Revision), coqKvs(rr.Kvs), lib.Bool(rr.More), lib.Bool(m.Err != "")))
 			case <-deadline:
